@@ -147,7 +147,7 @@ def collect(tier: str, seed: int = 0, consts: dict | None = None, pairs: bool = 
         for k, b in enumerate(beh):
             cid = cid0 + k
             _, words, width, minlen, ii, si, md, mlines = b
-            with_pairs = pairs and (not md) and (len(words) <= 3 or cid % (7 if tier == "quick" else 2) == 0)
+            with_pairs = pairs and (not md) and (len(words) <= 3 or cid % (7 if tier == "quick" else 4) == 0)
             cases.append((cid, words, width, minlen, ii, si, md, lens, with_pairs))
         del beh
         # negative widths cannot be written in a TLC cfg file: width-0 behaviours are also observed at width -1
